@@ -344,6 +344,43 @@ class Explorer:
 
 
 # ------------------------------------------------------------------------------------
+def quick_valid(pc, goal, timeout_ms=2000):
+    """Is `goal` a consequence of `pc`?  Used while exploring (sequence-class identification):
+    contextual ite resolution, then e-matching only, then the default configuration; `False`
+    means "not shown", never "refuted"."""
+    key = (goal.get_id(), len(pc), pc[-1].get_id() if len(pc) else 0)
+    hit = _QV_MEMO.get(key)
+    if hit is not None and hit[0].eq(goal) and (not len(pc) or hit[1].eq(pc[-1])):
+        return hit[2]
+    r = _quick_valid(pc, goal, timeout_ms)
+    if len(_QV_MEMO) > 50000:
+        _QV_MEMO.clear()
+    _QV_MEMO[key] = (goal, pc[-1] if len(pc) else None, r)
+    return r
+
+
+_QV_MEMO = {}
+
+
+def _quick_valid(pc, goal, timeout_ms):
+    pc2, goal2 = resolve_ites(list(pc), goal)
+    f = z3.And(*pc2, z3.Not(goal2)) if pc2 else z3.Not(goal2)
+    if has_quantifier(f):
+        s2 = z3.Solver()
+        s2.set('timeout', min(timeout_ms, 600))
+        s2.set('auto_config', False)
+        s2.set('mbqi', False)
+        s2.add(f)
+        if s2.check() == z3.unsat:
+            return True
+    s = z3.Solver()
+    # exploration-time question: a proof by instantiation has been tried above; the default
+    # configuration gets a short budget only (a miss costs precision, never soundness)
+    s.set('timeout', min(timeout_ms, 250) if has_quantifier(f) else timeout_ms)
+    s.add(f)
+    return s.check() == z3.unsat
+
+
 def decompose(goal, hyps=(), budget=None):
     """Split a goal into leaves (extra hypotheses, atomic goal): conjunctions are proved conjunct by
     conjunct, universal goals are skolemised, implications move their premise to the hypotheses.
